@@ -104,3 +104,55 @@ pub fn account(l: &mut Local, st: &SceneStats) {
     }
     l.outcome(st.hash);
 }
+
+/// final surface of a scene executed without step checks (guarded)
+pub fn render(scene: &Scene) -> Result<Vec<u32>, String> {
+    guard(|| {
+        let mut dt = scene.target();
+        for op in &scene.ops {
+            exec(&mut dt, op);
+        }
+        dt.get_data().to_vec()
+    })
+}
+
+pub fn hexs(v: &[u32]) -> String {
+    v.iter().map(|p| format!("{:08x}", p)).collect::<Vec<_>>().join(" ")
+}
+
+/// Differential oracle: two scenes that the property says are equivalent must leave
+/// bit-identical surfaces. Case text: "<scene A> || <scene B>".
+pub fn diff_scenes(sig: &str, a: &Scene, b: &Scene) -> Result<(u64, bool), Violation> {
+    let case = format!("{} || {}", a, b);
+    let ra = render(a);
+    let rb = render(b);
+    match (ra, rb) {
+        (Ok(pa), Ok(pb)) => {
+            if pa != pb {
+                let i = (0..pa.len().min(pb.len())).find(|&i| pa[i] != pb[i]).unwrap_or(0);
+                Err(Violation::new(format!("{}/pixels-differ", sig), case, format!("pixel index {} ({},{}): A {:#010x} vs B {:#010x}\nA: {}\nB: {}", i, i as i32 % a.w.max(1), i as i32 / a.w.max(1), pa.get(i).copied().unwrap_or(0), pb.get(i).copied().unwrap_or(0), hexs(&pa), hexs(&pb))))
+            } else {
+                let changed = pa != a.dst.pixels(a.w, a.h);
+                Ok((hash64(&pa), changed))
+            }
+        }
+        (Err(p), Ok(_)) | (Ok(_), Err(p)) => {
+            Err(Violation::new(format!("{}/one-route-panicked", sig), case, format!("only one of the two routes panicked: {}", p)))
+        }
+        (Err(p1), Err(_)) => {
+            if p1.contains("sw-composite") && p1.contains("overflow") {
+                // both routes hit the dependency's non-separable overflow (recorded under C07)
+                Ok((0, false))
+            } else {
+                Err(Violation::new(format!("{}/both-routes-panicked", sig), case, format!("both routes panicked: {}", p1)))
+            }
+        }
+    }
+}
+
+pub fn parse_scene_pair(case: &str) -> Result<(Scene, Scene), String> {
+    let mut it = case.split("||");
+    let a = parse_scene(it.next().ok_or("missing scene A")?.trim())?;
+    let b = parse_scene(it.next().ok_or("missing scene B")?.trim())?;
+    Ok((a, b))
+}
